@@ -92,10 +92,8 @@ def _cmp_obs(h, ops, j, what):
 def twin_check(h, case, rng):
     ops = [list(o) for o in h.ops_done]
     js = list(h.misuse_ok)
-    if rng is not None and len(js) > 2:
-        js = rng.sample(js, 2)
-    else:
-        js = js[:2]
+    if len(js) > 3:                      # deterministic choice (generation and replay must check the same calls)
+        js = [js[0], js[len(js) // 2], js[-1]]
     for j in js:
         why = _cmp_obs(h, ops, j, "rejected ill-formed call")
         h.probe("c07_twin_runs")
@@ -116,7 +114,7 @@ def probe_neutral(h, case, rng):
     js = [i for i, o in enumerate(ops) if o[0] == "probe"]
     if not js:
         return
-    j = js[0] if rng is None else rng.choice(js)
+    j = js[len(js) // 2]
     why = _cmp_obs(h, ops, j, "probe (reserve+cancel)")
     h.probe("c11_probe_twin_runs")
     if why:
@@ -180,6 +178,8 @@ def shrink(case, key, budget=400):
             o2[2] = 0
         elif o[0] == "put" and o[4] not in (0, 1):
             o2[4] = 1
+        elif o[0] == "step" and o[1] != 1:
+            o2[1] = 1
         elif o[0] == "adv" and o[1] not in (0, 1):
             o2[1] = 1
         else:
